@@ -34,8 +34,8 @@ RULE = ('cases: seeded batch_run calls on a self-identifying fixture model: grid
 ASSUMPTIONS = ['a batch_run call that hangs in Pool.terminate() after a failed execution is the known finding F7; any other hang is inconclusive',
                'fault position = n-th model construction (global ordinal claimed through O_EXCL files), which equals the list position for one '
                'process and approximates it for several', 'a hang outside that mechanism is reported as inconclusive by the watchdog, not as a violation']
-FLOORS = {'quick': {'parameter_list_used_for_an_earlier_batch': 8, 'parameter_list_from_a_dict_reused_by_the_caller': 8, 'fault_exc_InjectedModelComplete': 5, 'batches': 100, 'executions_checked': 310, 'records_checked': 1200, 'fault_batches': 30, 'faults_propagated': 30,
-                    'multi_process_batches': 50, 'reordered_batches': 5, 'serial_order_checks': 10, 'limit_below_completion': 15,
+FLOORS = {'quick': {'fault_exc_InjectedOSError': 5, 'batches_after_a_refused_batch_run_call': 11, 'parameter_list_used_for_an_earlier_batch': 8, 'parameter_list_from_a_dict_reused_by_the_caller': 8, 'fault_exc_InjectedModelComplete': 5, 'batches': 100, 'executions_checked': 310, 'records_checked': 1200, 'fault_batches': 30, 'faults_propagated': 30,
+                    'multi_process_batches': 50, 'reordered_batches': 5, 'serial_order_checks': 9, 'limit_below_completion': 15,
                     'limit_above_completion': 15, 'multi_collector_batches': 20, 'no_collector_batches': 8, 'big_batches_many_runs': 1, 'big_batches_long_runs': 1, 'big_batches_many_repetitions': 1, 'fault_exc_InjectedKeyError': 8, 'collectors_at_completer_priority': 27, 'parameter_list_with_history': 11, 'procs_1': 20, 'procs_2_4': 20, 'procs_5_8': 8, 'procs_9_16': 8},
           'thorough': {'batches': 3000, 'fault_batches': 1000, 'reordered_batches': 200, 'procs_9_16': 200}}
 EXHAUSTIVE = {}
@@ -97,6 +97,7 @@ def gen_spec(rng, sid, fault_ordinal=None, base=None):
         base = dict(grid=grid, repetitions=reps, stop=stop, max_timesteps=lim, collector_ids=all_ids, collectors=collectors, processes=procs,
                     use_parameter_list=use_pl, explicit_reps=rng.random() < 0.5,
                     pl_history=use_pl and rng.random() < 0.5,
+                    rejected_first=(rng.choice([0, -1, '2', 2.5]) if rng.random() < 0.25 else None),
                     pl_from_dict=use_pl and rng.random() < 0.4, pl_warmup=(rng.choice([2, 3, 0]) if use_pl and rng.random() < 0.5 else None),
                     collector_priority=rng.choice([None, None, 0]))   # 0 = same priority as the completing system   # the ParameterList was built before and a parameter removed since
     spec = dict(base)
@@ -110,7 +111,7 @@ def gen_spec(rng, sid, fault_ordinal=None, base=None):
             kind = 'ctor'
         spec['fault'] = {'kind': kind, 'ordinal': fault_ordinal, 'tag': f'fault-{sid}-{fault_ordinal}',
                          'exc': rng.choice(['InjectedFault', 'InjectedFault', 'InjectedKeyError', 'InjectedLookupError', 'InjectedAttributeError',
-                                            'InjectedStop', 'InjectedModelComplete']),
+                                            'InjectedStop', 'InjectedModelComplete', 'InjectedOSError']),
                          't': rng.randint(0, max(0, last)) if kind == 'step' else None}
     return spec
 
@@ -132,6 +133,7 @@ def run_child(ctx, specs):
     env = dict(os.environ, VERIF_REPO=repo_root(), PYTHONHASHSEED='0', PYTHONDONTWRITEBYTECODE='1')
     outs = {}
     todo = list(specs)
+    assert len({s_['id'] for s_ in specs}) == len(specs), 'harness error: duplicate batch ids in one group'
     last = None
     rounds = 0
     while todo:
@@ -204,6 +206,8 @@ def check_batch(ctx, spec, out):
         ctx.count('multi_process_batches')
     if spec.get('pl_history'):
         ctx.count('parameter_list_with_history')
+    if spec.get('rejected_first') is not None:
+        ctx.count('batches_after_a_refused_batch_run_call')
     if spec.get('pl_from_dict'):
         ctx.count('parameter_list_from_a_dict_reused_by_the_caller')
     if spec.get('pl_warmup') is not None:
@@ -355,10 +359,10 @@ def case_big(ctx, case):
         ctx.count('big_batches_many_runs')
     elif style == 1:    # long runs, awkward limits
         stop = rng.choice([700, 1000, 1500])
-        for lim in (rng.choice([257, 300, 513, 699]), stop - 1, None):
+        for j_, lim in enumerate((rng.choice([257, 300, 513, 699]), stop - 1, None)):
             specs.append(dict(grid={'alpha': [1, 2]}, repetitions=1, stop=stop, max_timesteps=lim, collector_ids=['c_main'], collectors='c_main',
                               processes=rng.choice([1, 2]), use_parameter_list=False, explicit_reps=False, pl_history=False,
-                              collector_priority=None, id=f'B{case["i"]}L{lim}', delays=[0]))
+                              collector_priority=None, id=f'B{case["i"]}L{j_}_{lim}', delays=[0]))      # (ids must be unique within the group: results are matched by id)
         ctx.count('big_batches_long_runs')
     else:               # many repetitions
         reps = rng.choice([40, 70])
